@@ -5,10 +5,12 @@
 //   "sel"  {"addr":ZZ,"has":0|1,"sl":[slave symbols NN DD..],"ents":[[path as character codes, kind],..]}
 //          kind 0 = regular file with a self-contained definition, 1 = directory, 2 = regular file whose definition takes
 //          circuit and destination from the defaults, 3 = regular file holding a template
-//          The entries are created below rootdir/w (once in the given and once in the opposite order), a fresh MessageMap +
-//          ScanHelper on that local configuration path get the identification the way main.cpp / BusHandler hand it over
-//          (getScanMessage(ZZ)->storeLastData(master, slave)), then loadScanConfigFile(ZZ, &file) is called.
-//          Logged per run: result code, relative file, loaded files, the messages found afterwards, readdir order.
+//          The entries are created below rootdir/w, a fresh MessageMap + ScanHelper on that local configuration path get
+//          the identification the way main.cpp / BusHandler hand it over (getScanMessage(ZZ)->storeLastData(master,
+//          slave)), then loadScanConfigFile(ZZ, &file) is called.  Two runs per world: the directory listing order is an
+//          input of the real code that the file system decides, so readdir() is interposed at link time (like the virtual
+//          clock of other harnesses) and hands out the entries in ascending / descending name order.
+//          Logged per run: result code, relative file, loaded files, the messages found afterwards, listing order.
 //   "fn"   {"fn":[codes]}                     -> MessageMap::extractDefaultsFromFilename
 //   "pm"   {"arg":[codes],"oms":0|1,"pre":0|1} -> ScanHelper::parseMessage (pre=1: the targets already hold 2 symbols)
 // No ebusd code lives here.
@@ -17,6 +19,7 @@
 #include <sys/stat.h>
 #include <sys/types.h>
 #include <dirent.h>
+#include <dlfcn.h>
 #include <errno.h>
 #include <climits>
 #include <sstream>
@@ -33,6 +36,31 @@
 using namespace ebusd;
 using std::string;
 using std::vector;
+
+// ---- controlled directory listing order (link-time interposition of readdir / closedir) -------------------------
+static int g_listOrder = 0;   // 0 = as the file system returns it, 1 = ascending by name, 2 = descending by name
+struct Listing { std::vector<dirent> entries; size_t pos = 0; };
+static std::map<DIR*, Listing>& listings() { static std::map<DIR*, Listing> m; return m; }
+typedef dirent* (*readdir_fn)(DIR*);
+typedef int (*closedir_fn)(DIR*);
+static readdir_fn realReaddir() { static readdir_fn f = reinterpret_cast<readdir_fn>(dlsym(RTLD_NEXT, "readdir")); return f; }
+static closedir_fn realClosedir() { static closedir_fn f = reinterpret_cast<closedir_fn>(dlsym(RTLD_NEXT, "closedir")); return f; }
+static dirent* orderedReaddir(DIR* d) {
+  if (g_listOrder == 0) return realReaddir()(d);
+  auto it = listings().find(d);
+  if (it == listings().end()) {
+    Listing l;
+    while (dirent* e = realReaddir()(d)) l.entries.push_back(*e);
+    bool desc = g_listOrder == 2;
+    std::sort(l.entries.begin(), l.entries.end(), [desc](const dirent& a, const dirent& b) {
+      int c = strcmp(a.d_name, b.d_name); return desc ? c > 0 : c < 0; });
+    it = listings().emplace(d, l).first;
+  }
+  Listing& l = it->second;
+  return l.pos < l.entries.size() ? &l.entries[l.pos++] : nullptr;
+}
+extern "C" dirent* readdir(DIR* d) { return orderedReaddir(d); }
+extern "C" int closedir(DIR* d) { listings().erase(d); return realClosedir()(d); }
 
 static void die(const string& what) { perror(what.c_str()); exit(2); }
 
@@ -100,13 +128,14 @@ static string passthrough(const vfj::JV& v) {
 
 struct Stats { long sel = 0, runs = 0, chosen = 0, fn = 0, pm = 0, files = 0; };
 
-// one run of a selection world; order = the sequence of entry indices in creation order
-static string runSel(const vfj::JV& c, const string& root, const vector<size_t>& order, Stats* st, bool asText) {
+// one run of a selection world with the given listing order (1 ascending, 2 descending)
+static string runSel(const vfj::JV& c, const string& root, int listOrder, Stats* st, bool asText) {
   const string cfg = root + "/w";
+  g_listOrder = 0;
   rmtree(cfg);
   mkdirs(cfg);
   const vfj::JV& ents = c["ents"];
-  for (size_t k : order) {
+  for (size_t k = 0; k < ents.size(); k++) {
     string rel = ents[k][0].bytes();
     int kind = static_cast<int>(ents[k][1].num);
     if (kind == 1) mkdirs(cfg + "/" + rel);
@@ -131,6 +160,7 @@ static string runSel(const vfj::JV& c, const string& root, const vector<size_t>&
     }
   }
   string file = "\x01unset";
+  g_listOrder = listOrder;
   result_t rc = scan->loadScanConfigFile(addr, &file);
   st->runs++;
   if (rc == RESULT_OK) st->chosen++;
@@ -182,6 +212,7 @@ static string runSel(const vfj::JV& c, const string& root, const vector<size_t>&
     for (const auto m : all) if (!m->isScanMessage()) printf("%s/%s@%02x ", m->getCircuit().c_str(), m->getName().c_str(), m->getDstAddress());
     printf("\n");
   }
+  g_listOrder = 0;
   delete scan;
   delete messages;
   return o.str();
@@ -211,8 +242,6 @@ int main(int argc, char** argv) {
     if (t == "sel") {
       st.sel++;
       size_t n = c["ents"].size();
-      vector<size_t> fwd, rev;
-      for (size_t k = 0; k < n; k++) { fwd.push_back(k); rev.push_back(n - 1 - k); }
       if (asText) {
         printf("--- sel addr=%02lx has=%ld sl=", c["addr"].num, c["has"].num);
         for (size_t i = 0; i < c["sl"].size(); i++) printf("%02lx", c["sl"][i].num);
@@ -220,8 +249,8 @@ int main(int argc, char** argv) {
         for (size_t k = 0; k < n; k++) printf(" %s(%ld)", c["ents"][k][0].bytes().c_str(), c["ents"][k][1].num);
         printf("\n");
       }
-      l += ",\"r\":[" + runSel(c, root, fwd, &st, asText);
-      l += "," + runSel(c, root, rev, &st, asText) + "]}";
+      l += ",\"r\":[" + runSel(c, root, 1, &st, asText);
+      l += "," + runSel(c, root, 2, &st, asText) + "]}";
     } else if (t == "fn") {
       st.fn++;
       MessageMap messages(false, "", false);
